@@ -177,7 +177,10 @@ func VerifConnReadMessage() {
 		got, err := c.readMessage()
 		if err != nil {
 			verif.Reach("short-socket-rejected")
-			verif.Assert("error-only-on-short-socket", msg.Type == p2p.Message_PIECE_PAYLOAD && int(hdr.Length) > avail)
+			// a payload message fails only on a short socket or when the announced
+			// length exceeds the torrent's maximum piece length
+			verif.Assert("error-only-on-short-socket-or-oversized-payload", msg.Type == p2p.Message_PIECE_PAYLOAD &&
+				(int(hdr.Length) > avail || int64(hdr.Length) > verif14Info().MaxPieceLength()))
 			return
 		}
 		verif.Assert("type-preserved", got.Message.Type == msg.Type)
